@@ -260,11 +260,18 @@ func projectByDirStdout(out string) Table {
 		if line == "" {
 			continue
 		}
-		if !strings.Contains(line, ",") {
-			t.Other = append(t.Other, line)
+		if !strings.Contains(line, ",") || strings.HasPrefix(line, "results written to ") {
+			t.Other = append(t.Other, line) // progress lines (a directory name may itself contain a comma)
 			continue
 		}
-		recs = append(recs, strings.Split(line, ","))
+		// the table is printed as CSV records: a name that contains a comma or a quote is quoted
+		rd := csv.NewReader(strings.NewReader(line))
+		rd.FieldsPerRecord = -1
+		f, err := rd.Read()
+		if err != nil {
+			f = strings.Split(line, ",") // not a CSV record: rowsToTable will call it malformed
+		}
+		recs = append(recs, f)
 	}
 	rowsToTable(recs, &t)
 	return t
